@@ -474,3 +474,37 @@ def module_consts(module, scope=''):
                     return (d[parts[1]],)
         return None
     return look
+
+
+def simplify(e, folder):
+    """replace every boolean sub-expression the folder decides by its constant; IfExp with a decided test by its branch"""
+    class T(ast.NodeTransformer):
+        def generic_visit(self, n):
+            n = super().generic_visit(n)
+            if isinstance(n, ast.IfExp):
+                t = folder.truth(n.test)
+                if t is not None:
+                    return n.body if t else n.orelse
+            if isinstance(n, (ast.Compare, ast.BoolOp)) or (isinstance(n, ast.UnaryOp) and isinstance(n.op, ast.Not)) or folder.atom(n) is not None:
+                t = folder.truth(n)
+                if t is not None:
+                    return ast.copy_location(ast.Constant(value=t), n)
+            if isinstance(n, ast.BoolOp):
+                # drop neutral constants
+                neutral = isinstance(n.op, ast.And)
+                vals = [v for v in n.values if not (isinstance(v, ast.Constant) and v.value is neutral)]
+                if len(vals) == 1:
+                    return vals[0]
+                if vals and len(vals) < len(n.values):
+                    n.values = vals
+            return n
+    return T().visit(clone(e))
+
+
+def parents(tree):
+    """{id(child): parent} for a (substituted) expression tree"""
+    out = {}
+    for p in ast.walk(tree):
+        for c in ast.iter_child_nodes(p):
+            out[id(c)] = p
+    return out
